@@ -47,7 +47,7 @@ def one_case(rng, tier):
     prog = g.program(min_async=rng.choice([0, 1, 1, 2]))
     for s in prog['nodes']:
         if s['op'] == 'sink' and rng.random() < 0.6:
-            s['kind'] = rng.choice(['coro', 'future'])
+            s['kind'] = rng.choice(['coro', 'future', 'tornado'])
     prods = g.producers(prog, max_total=16)
     return {'prog': prog, 'producers': prods, 'awaiting': rng.random() < 0.7}
 
